@@ -8,3 +8,4 @@ ASSUMPTIONS = ["histories are bounded in shape (<= 2 complex + 2 real parameters
 
 from vt.contracts import iface_vars  # noqa: F401,E402
 from vt.contracts import var_sym  # noqa: F401,E402
+from vt.contracts import iface_c16_config  # noqa: F401,E402
